@@ -176,7 +176,7 @@ structure KtCase where
   name : Str           -- Kotlin class name: Pascal-cased `id.original`, `_` in front of a digit
   generics : Str       -- the enum's `<A, B>` repeated on every data class
   payload : KtPayload
-  parent : Str         -- `<prefix><enum id.renamed>` — the super class *reference* (`fix:` commit 03e02a1)
+  parent : Str         -- `<prefix><enum id.renamed>` — the super class *reference* (`fix:` commit 3d3e1e7)
   parentGenerics : Str
 
 def renderCase (c : KtCase) : Str :=
@@ -284,7 +284,7 @@ def valueField (ty : RustType) : RustField :=
   { id := ⟨s%"value", s%"value", false⟩, ty, comments := [], hasDefault := false, decorators := [] }
 
 /-- `write_type_alias` (kotlin.rs:123): the `typealias` and the value class are both named after
-`id.renamed` (the `typealias` since the `fix:` commit b182a80) -/
+`id.renamed` (the `typealias` since the `fix:` commit 0c924cd) -/
 def aliasFacts (cfg : Cfg) (a : RustTypeAlias) : Outcome KtDecl :=
   if isInline a.decorators then
     (paramFacts cfg [] false a.isRedacted (valueField a.ty)).bind fun p =>
@@ -342,7 +342,7 @@ def beginFile (cfg : Cfg) (d : ParsedData) : Str :=
   s%"\nimport kotlinx.serialization.Serializable\nimport kotlinx.serialization.SerialName\n\n"
 
 /-- `write_imports` (kotlin.rs:288): one line per type, `import <package>.<crate>.<prefix><name>`
-(since the `fix:` commit abe0590 the name carries the configured prefix, like the definition in
+(since the `fix:` commit 8dc01bf the name carries the configured prefix, like the definition in
 the other module; before it the line named the type as in the *Rust* source), then an empty line -/
 def writeImports (cfg : Cfg) (imports : Pipeline.ScopedCrateTypes) : Str :=
   (imports.flatMap fun (path, tys) =>
